@@ -12,7 +12,7 @@ TRUSTED_BASE = [
 ]
 
 STANDING_ASSUMPTIONS = list(TRUSTED_BASE) + [
-    "extraction is mechanical (tools/extract, rules R1-R14 logged per run in coverage.verus.rewrite_samples); spans and token spacing are dropped",
+    "extraction is mechanical (tools/extract, rules R1-R15 logged per run in coverage.verus.rewrite_samples); spans and token spacing are dropped",
     "R13: iter().enumerate().map(F).fold(I,G), iter().filter(P).count() and a filter adaptor consumed once by a quote! repetition mean the index loops they are rewritten to (closures verbatim); laziness of filter is dropped",
     "machine integers: usize arithmetic in contracted functions is checked for overflow by Verus where it occurs",
 ]
